@@ -243,11 +243,71 @@ func C03_Numbers() {
 	if ok {
 		nd.Assert(n.Int() == want, tag+"/denotes-wrong-value")
 	}
-	// negative, and as a subscript
+	// negative
 	q, qerr := path.Parse("-" + lit)
 	if qerr == nil {
 		if m, ok := q.Root().(*ast.IntegerNode); ok {
 			nd.Assert(m.Int() == -want, tag+"/negated-value")
+		}
+	}
+	// the same spelling in every other place the grammar takes an integer
+	intOf := func(n ast.Node) (int64, bool) {
+		if i, ok := n.(*ast.IntegerNode); ok {
+			return i.Int(), true
+		}
+		return 0, false
+	}
+	switch nd.Choice(5) {
+	case 0:
+		a, aerr := path.Parse("$.**{" + lit + "}")
+		nd.Assert(aerr == nil, tag+"/any-level/rejected "+f.pre)
+		if aerr == nil {
+			an, ok := a.Root().Next().(*ast.AnyNode)
+			nd.Assert(ok && int64(an.First()) == want && int64(an.Last()) == want, tag+"/any-level/denotes-wrong-value")
+		}
+	case 1:
+		a, aerr := path.Parse("$.**{0 to " + lit + "}")
+		nd.Assert(aerr == nil, tag+"/any-range/rejected "+f.pre)
+		if aerr == nil {
+			an, ok := a.Root().Next().(*ast.AnyNode)
+			nd.Assert(ok && an.First() == 0 && int64(an.Last()) == want, tag+"/any-range/denotes-wrong-value")
+		}
+	case 2:
+		a, aerr := path.Parse("$[" + lit + " to last]")
+		nd.Assert(aerr == nil, tag+"/subscript/rejected "+f.pre)
+		if aerr == nil {
+			ix, ok := a.Root().Next().(*ast.ArrayIndexNode)
+			nd.Assert(ok && len(ix.Subscripts()) == 1, tag+"/subscript/tree")
+			if ok && len(ix.Subscripts()) == 1 {
+				b, isB := ix.Subscripts()[0].(*ast.BinaryNode)
+				nd.Assert(isB, tag+"/subscript/tree")
+				if isB {
+					v, isI := intOf(b.Left())
+					nd.Assert(isI && v == want, tag+"/subscript/denotes-wrong-value")
+				}
+			}
+		}
+	case 3:
+		a, aerr := path.Parse("$.decimal(" + lit + ")")
+		nd.Assert(aerr == nil, tag+"/decimal-precision/rejected "+f.pre)
+		if aerr == nil {
+			b, isB := a.Root().Next().(*ast.BinaryNode)
+			nd.Assert(isB, tag+"/decimal-precision/tree")
+			if isB {
+				v, isI := intOf(b.Left())
+				nd.Assert(isI && v == want, tag+"/decimal-precision/denotes-wrong-value")
+			}
+		}
+	case 4:
+		a, aerr := path.Parse("$.time(" + lit + ")")
+		nd.Assert(aerr == nil, tag+"/time-precision/rejected "+f.pre)
+		if aerr == nil {
+			u, isU := a.Root().Next().(*ast.UnaryNode)
+			nd.Assert(isU, tag+"/time-precision/tree")
+			if isU {
+				v, isI := intOf(u.Operand())
+				nd.Assert(isI && v == want, tag+"/time-precision/denotes-wrong-value")
+			}
 		}
 	}
 }
